@@ -131,6 +131,7 @@ Proof.
     + tauto.
   - exact R.
   - exact R.
+  - exact R.
 Qed.
 
 Lemma ct_view_of_rel p s1 s2 : ct_rel p s1 -> ct_rel p s2 -> view s1 = view s2.
